@@ -30,7 +30,7 @@ import (
 
 const (
 	t3 = 80 * time.Millisecond
-	t6 = 1500 * time.Millisecond
+	t6 = 10 * time.Second
 )
 
 var conditions = []string{"never-opened", "closed", "connecting", "not-selected", "deselected", "deselected-fast", "between-generations"}
@@ -157,11 +157,12 @@ func (x *cell) establish(cond string, active bool) (peerUp bool, opened bool, ok
 		if cond == "deselected" {
 			// let the supervisor react to the select before the peer deselects (the fast variant
 			// does not wait: DESIGN.md §5 #1 / known finding C07-deselect-replay)
-			if err := e.WaitNotified(hsms.SelectedState, 3*time.Second); err != nil {
+			if err := e.WaitNotified(hsms.SelectedState, 1, 3*time.Second); err != nil {
 				x.fail(err.Error())
 				return true, true, false
 			}
 		}
+		ns0 := e.NotifCount(hsms.NotSelectedState)
 		if _, err := x.p.SendF(sc.DeselectReq(e.Sid, 0xE0000002)); err != nil {
 			x.fail("Deselect.req: " + err.Error())
 			return true, true, false
@@ -171,14 +172,18 @@ func (x *cell) establish(cond string, active bool) (peerUp bool, opened bool, ok
 			x.fail("no Deselect.rsp")
 			return true, true, false
 		}
-		if err := e.WaitState(hsms.NotSelectedState, 300*time.Millisecond); err != nil {
-			if rsp.B3 == 0 {
+		// let the supervisor settle: either it reports the select-lost (one more NotSelected
+		// notification), or - when the select itself was never reported - nothing more is due; a
+		// supervisor that replays the select echo shows up as State() == Selected (DESIGN.md §5 #1)
+		_ = e.WaitNotified(hsms.NotSelectedState, ns0+1, 300*time.Millisecond)
+		if e.Conn.State() != hsms.NotSelectedState {
+			if rsp.B3 == 0 && e.Conn.State() == hsms.SelectedState {
 				x.failed = true
 				x.c.Count("oracle/selected-after-deselect")
 				x.c.Fail("C07: State() is Selected after the peer's Deselect.req was answered Deselect.rsp(0): data sends are not refused while deselected",
 					x.what+" | "+sc.Render(e.Rec.Entries()))
 			} else {
-				x.fail(err.Error())
+				x.fail(fmt.Sprintf("deselect did not settle: state %v", e.Conn.State()))
 			}
 			return true, true, false
 		}
@@ -506,7 +511,7 @@ func gateScenarios(c *vh.Ctx, active bool) {
 					return nil, e, err
 				}
 				acts = append(acts, "P "+sc.SelectReq(e.Sid, 7).M(), "D", "Q1")
-				if err := e.WaitNotified(hsms.SelectedState, 3*time.Second); err != nil {
+				if err := e.WaitNotified(hsms.SelectedState, 1, 3*time.Second); err != nil {
 					return nil, e, err
 				}
 				if _, err := p.SendF(sc.DeselectReq(e.Sid, 8)); err != nil {
@@ -538,9 +543,114 @@ func gateScenarios(c *vh.Ctx, active bool) {
 			return acts, e, nil
 		}}
 	}
+	// B2: the connection is Selected at the B1 read and deselected (peer Deselect.req, placed with the
+	// after-write-lock seam) before the write-boundary re-check.
+	mkB2 := func(ep string) sn {
+		return sn{"b2/" + ep, func() ([]string, *sc.Env, error) {
+			e, err := sc.NewEnv(false, 1, t3, t6)
+			if err != nil {
+				return nil, nil, err
+			}
+			var acts []string
+			if err := e.Open(false); err != nil {
+				return nil, e, err
+			}
+			p, err := e.Connect(3 * time.Second)
+			if err != nil {
+				return nil, e, err
+			}
+			defer p.Close()
+			if err := e.Select(p, 7); err != nil {
+				return nil, e, err
+			}
+			if err := e.WaitNotified(hsms.SelectedState, 1, 3*time.Second); err != nil {
+				return nil, e, err
+			}
+			acts = append(acts, "N", "U", "P "+sc.SelectReq(e.Sid, 7).M(), "D", "Q1")
+			e.Cond(true)
+			e.Metric()
+			acts = append(acts, "C", "M")
+			returned := make(chan struct{})
+			hookErr := make(chan error, 1)
+			isAsync := ep == "async" || ep == "forwardasync" || ep == "reply"
+			e.SetAfterWriteLock(func() {
+				if isAsync {
+					<-returned // the enqueueing call has returned (and logged) before the sender's write
+				}
+				if _, err := p.SendF(sc.DeselectReq(e.Sid, 8)); err != nil {
+					hookErr <- err
+					return
+				}
+				hookErr <- e.WaitState(hsms.NotSelectedState, 3*time.Second)
+			})
+			e.Call(context.Background(), ep, 1)
+			close(returned)
+			select {
+			case err := <-hookErr:
+				if err != nil {
+					return nil, e, err
+				}
+			case <-time.After(5 * time.Second):
+				return nil, e, fmt.Errorf("after-write-lock seam did not run")
+			}
+			// the Deselect.rsp is written once the write lock is free
+			if _, ok := p.Wait(3*time.Second, func(f sc.Frame) bool { return f.ST == 4 }, nil); !ok {
+				return nil, e, fmt.Errorf("no Deselect.rsp")
+			}
+			if !p.Barrier(nil) {
+				return nil, e, fmt.Errorf("barrier")
+			}
+			es := e.Rec.Entries()
+			var tmpl string
+			kind := ""
+			iR, iV := -1, -1
+			for i, en := range es {
+				if en.K == 'S' && en.ID == 1 {
+					f := *en.F
+					kind = en.Kind
+					tmpl = fmt.Sprintf("S 1 %s %s", en.Kind, f.M())
+				}
+				if en.K == 'R' && en.ID == 1 {
+					iR = i
+				}
+				if en.K == 'V' && en.F.ST == 4 {
+					iV = i
+				}
+			}
+			des := "P " + sc.DeselectReq(e.Sid, 8).M() + " ; D"
+			switch {
+			case isAsync:
+				// enter, B1 passes, enqueue; then the sender pops it: deselect lands, B2 refuses
+				acts = append(acts, tmpl, "G 1 go", "G 1 go", "G 1 eok", des, "Q1", "Q1")
+			case kind == "KForward" || ep == "syncnw":
+				if iV < iR {
+					acts = append(acts, tmpl, "G 1 go", "G 1 go", des, "G 1 go", "Q1", "G 1 go")
+				} else {
+					acts = append(acts, tmpl, "G 1 go", "G 1 go", des, "G 1 go", "G 1 go", "Q1")
+				}
+			default: // registering sync send
+				if iV < iR {
+					acts = append(acts, tmpl, "G 1 go", "G 1 go", "G 1 go", des, "G 1 go", "Q1", "G 1 go")
+				} else {
+					acts = append(acts, tmpl, "G 1 go", "G 1 go", "G 1 go", des, "G 1 go", "G 1 go", "Q1")
+				}
+			}
+			// barrier exchange, then the counter
+			var bsys uint32
+			for _, en := range es {
+				if en.K == 'P' && en.F.ST == 5 {
+					bsys = en.F.Sys
+				}
+			}
+			acts = append(acts, "P "+sc.LinktestReq(bsys).M(), "D", "Q1", "B")
+			e.Metric()
+			acts = append(acts, "M")
+			return acts, e, nil
+		}}
+	}
 	var list []sn
 	for _, ep := range sc.EntryPoints {
-		list = append(list, mk(ep.Name, false), mk(ep.Name, true))
+		list = append(list, mk(ep.Name, false), mk(ep.Name, true), mkB2(ep.Name))
 	}
 	for _, s := range list {
 		acts, e, err := s.run()
